@@ -34,7 +34,7 @@ HashFileDB = TRef(
     "HashFileDB",
     fields=dict(fs=FileSystem, path=TStr, hash_name=TStr, read_only=TBool, objs=TSet(HashInfo), cache_types=TList(TStr),
                 # ghost: number of removals of things under the store root that are not objects (legacy unpacked dirs)
-                nonobj_removals=TInt),
+                nonobj_removals=TInt, state=TRef.registry.get('StateBase') or TRef('StateBase', fields={}, qualname='dvc_data.hashfile.state:StateBase')),
     qualname="dvc_data.hashfile.db:HashFileDB",
 )
 LocalHashFileDB = TRef("LocalHashFileDB", fields={}, qualname="dvc_data.hashfile.db.local:LocalHashFileDB", bases=("HashFileDB",))
